@@ -199,6 +199,30 @@ def engine_event_obligations(ctx, rule):
         calls = [(t, cond) for t, _, cond in res.calls
                  if t[0] == "call" and t[1][0] == "call" and is_call(t[1], "jax.vmap")
                  and t[1][2] and t[1][2][0] == ("a", ("a", SELF, "_kernel_sequence"), ev)]
+        call_nodes = [nd for t, nd, _ in res.calls
+                      if t[0] == "call" and t[1][0] == "call" and is_call(t[1], "jax.vmap")
+                      and t[1][2] and t[1][2][0] == ("a", ("a", SELF, "_kernel_sequence"), ev)]
+        if len(call_nodes) == 1:
+            import ast as _ast
+            early = []
+            for rc, _, rnode in res.returns:
+                if not isinstance(rnode, _ast.Return) or rnode.lineno >= call_nodes[0].lineno:
+                    continue
+                # an early return is fine when it is the guard itself written as an early
+                # exit: its condition is exactly "not an adaptation epoch"
+                atoms_ = [(a, p_) for a, p_ in rc]
+                ok_guard = False
+                if ev == "tune" and len(atoms_) == 1 and atoms_[0][1] is False:
+                    pred = atoms_[0][0]
+                    ok_guard = pred[0] == "call" and (fn_name(pred[1]) or "") == \
+                        f"{ETYPE}.is_adaptation"
+                if not ok_guard:
+                    early.append(rnode)
+            ctx.ob(rule, fi, f"no path through Engine.{mname} returns before the "
+                             f"kernel_sequence.{ev} call (path conditions are not exact after a "
+                             f"join, so early exits are excluded separately)", not early,
+                   detail=f"return at line(s) {[x.lineno for x in early]}",
+                   node=early[0] if early else None, stmt=f"{mname} returns before {ev}")
         ok_one = len(calls) == 1
         ctx.ob(rule, fi, f"Engine.{mname} calls kernel_sequence.{ev} once, mapped over chains",
                ok_one, detail=f"{len(calls)} call(s)", stmt=f"{mname} -> {ev}")
@@ -206,6 +230,39 @@ def engine_event_obligations(ctx, rule):
             continue
         seen += 1
         call, ccond = calls[0]
+        # the event is unconditional inside its helper -- except tuning, which runs
+        # exactly when the epoch that just ended is an adaptation epoch (no other gate:
+        # not the amount of history, not the state of the chains)
+        assumed_ = {(rc[-1][0], not rc[-1][1]) for rc, _, _ in res.raises if rc}
+        gate = [(a, p_) for a, p_ in ccond if (a, p_) not in assumed_]
+        if ev == "tune":
+            ep_p = [p_ for p_ in fi.params() if p_ != "self"]
+            etype = ("a", ("a", n(ep_p[0]), "config"), "type") if ep_p else None
+            ok_gate = False
+            if len(gate) == 1 and gate[0][1] is True and etype is not None:
+                try:
+                    members = enum_members(repo)
+                    globs = {f"{ETYPE}.{k}": v for k, v in members.items()}
+                    pred = gate[0][0]
+                    if pred[0] == "call" and (fn_name(pred[1]) or "").startswith(ETYPE + ".") \
+                            and pred[2] == (etype,):
+                        pfi = repo.functions.get(fn_name(pred[1]))
+                        prt = evaluate(repo, pfi).ret()
+                        got_ = {k for k, v in members.items()
+                                if concrete.evaluate(prt, {n(pfi.params()[0]): v}, globs)}
+                    else:
+                        got_ = {k for k, v in members.items()
+                                if concrete.evaluate(pred, {etype: v}, globs)}
+                    ok_gate = got_ == {"FAST_ADAPTATION", "SLOW_ADAPTATION"}
+                except concrete.Unmodelled:
+                    ok_gate = False
+        else:
+            ok_gate = gate == []
+        ctx.ob(rule, fi, f"kernel_sequence.{ev} is reached " + (
+            "exactly when the epoch is an adaptation epoch (no further gate)" if ev == "tune"
+            else "unconditionally inside its helper"), ok_gate,
+               detail=str([pretty(a)[:60] + "=" + str(p_) for a, p_ in gate]),
+               stmt=f"{mname} gate " + "; ".join(pretty(a)[:50] for a, _ in gate))
         args = call[2]
         ia = kw(call[1], "in_axes", 1)
         want_axes = ("tuple", tuple([c(0), c(0), c(0), c(None), c(0)][:nargs])) \
